@@ -13,7 +13,7 @@ VARIABLES vHist,      \* ids of the physical lines consumed so far
           vLast       \* what the vLast action did (for the action properties)
 vars == <<vHist, vSt, vPh, vPend, vRes, vLast>>
 
-NoLast == [kind |-> "none"]
+NoLast == [act |-> "none", kind |-> "none"]
 \* what a line says, independently of the machine state
 StaticInfo(t) ==
   LET p == ParseLine(t)
@@ -47,10 +47,10 @@ EffectF(s, f) ==
     [] kind = "AssignIndexed" -> [s EXCEPT !.vars[f.var][f.idx.n] = f.val.v]
     [] kind = "IndexError" -> [s EXCEPT !.err = "IndexError"]
     [] OTHER -> s
-LastOfF(s, f, kind) ==
+LastOfF(s, f, kind, act) ==
   IF kind \in {"AssignScalar", "AssignIndexed"}
-  THEN [kind |-> kind, var |-> f.var, idx |-> f.idx.n, val |-> f.val.v, before |-> s.vars]
-  ELSE [kind |-> kind]
+  THEN [act |-> act, kind |-> kind, var |-> f.var, idx |-> f.idx.n, val |-> f.val.v, before |-> s.vars]
+  ELSE [act |-> act, kind |-> kind]
 
 Init == vHist = <<>> /\ vSt = TestInit /\ vPh = "first" /\ vPend = 0 /\ vRes = "" /\ vLast = NoLast
 
@@ -61,43 +61,43 @@ Consume(a) == vHist' = Append(vHist, a)
 \* read_line: "When the line ends with continuation_char, the next line will just be appended"
 \* (the model check does not chain continuations: only a fresh line can be continued)
 ContinueLine(a) == /\ Feedable(a) /\ LR(a).cont /\ vPend = 0
-                   /\ Consume(a) /\ vPend' = a /\ UNCHANGED <<vSt, vPh, vRes>> /\ vLast' = [kind |-> "ContinueLine"]
+                   /\ Consume(a) /\ vPend' = a /\ UNCHANGED <<vSt, vPh, vRes>> /\ vLast' = [act |-> "ContinueLine", kind |-> "ContinueLine"]
 \* read_and_parse_line: a line of blanks only is skipped (also before the start key)
 SkipBlankLine(a) == /\ Feedable(a) /\ ~LR(a).cont /\ ~LR(a).meaningful
-                    /\ Consume(a) /\ vPend' = 0 /\ UNCHANGED <<vSt, vPh, vRes>> /\ vLast' = [kind |-> "SkipBlankLine"]
-Line(a, phase, kind) == /\ Feedable(a) /\ vPh = phase /\ ~LR(a).cont /\ LR(a).meaningful
-                        /\ KindF(vSt, LR(a).info) = kind
-                        /\ Consume(a) /\ vPend' = 0 /\ vLast' = LastOfF(vSt, LR(a).info, kind)
+                    /\ Consume(a) /\ vPend' = 0 /\ UNCHANGED <<vSt, vPh, vRes>> /\ vLast' = [act |-> "SkipBlankLine", kind |-> "SkipBlankLine"]
+Line(a, phase, kind, act) == /\ Feedable(a) /\ vPh = phase /\ ~LR(a).cont /\ LR(a).meaningful
+                             /\ KindF(vSt, LR(a).info) = kind
+                             /\ Consume(a) /\ vPend' = 0 /\ vLast' = LastOfF(vSt, LR(a).info, kind, act)
 \* the first meaningful line
-StartKey(a) == Line(a, "first", "StartKey") /\ vSt' = EffectF(vSt, LR(a).info) /\ vPh' = "loop" /\ vRes' = vRes
+StartKey(a) == Line(a, "first", "StartKey", "StartKey") /\ vSt' = EffectF(vSt, LR(a).info) /\ vPh' = "loop" /\ vRes' = vRes
 \* FirstLineBeforeStart: the first line is processed (variables are assigned, errors raised) although
 \* parsing has not started; then "required first keyword not found": rejected
 FirstLineBeforeStart(a) == /\ vPh = "first" /\ Feedable(a) /\ ~LR(a).cont /\ LR(a).meaningful
                            /\ KindF(vSt, LR(a).info) # "StartKey"
-                           /\ Consume(a) /\ vPend' = 0 /\ vLast' = LastOfF(vSt, LR(a).info, KindF(vSt, LR(a).info))
+                           /\ Consume(a) /\ vPend' = 0 /\ vLast' = LastOfF(vSt, LR(a).info, KindF(vSt, LR(a).info), "FirstLineBeforeStart")
                            /\ vSt' = EffectF(vSt, LR(a).info) /\ vPh' = "done"
                            /\ vRes' = IF vSt'.err # NoErr THEN "error" ELSE "rejected"
 \* lines while parsing
-StartKeyAgain(a) == Line(a, "loop", "StartKey") /\ UNCHANGED <<vSt, vPh, vRes>>
-StopKey(a) == Line(a, "loop", "StopKey") /\ vSt' = EffectF(vSt, LR(a).info) /\ vPh' = "done" /\ vRes' = "accepted"
-NoOpLine(a) == Line(a, "loop", "NoOp") /\ UNCHANGED <<vSt, vPh, vRes>>          \* unknown key, comment, empty line, ignored key
-IgnoreBadValue(a) == Line(a, "loop", "IgnoreBadValue") /\ UNCHANGED <<vSt, vPh, vRes>>   \* no ':=', no value, value of the wrong type
-AssignScalar(a) == Line(a, "loop", "AssignScalar") /\ vSt' = EffectF(vSt, LR(a).info) /\ UNCHANGED <<vPh, vRes>>
-AssignIndexed(a) == Line(a, "loop", "AssignIndexed") /\ vSt' = EffectF(vSt, LR(a).info) /\ UNCHANGED <<vPh, vRes>>
-IndexError(a) == Line(a, "loop", "IndexError") /\ vSt' = EffectF(vSt, LR(a).info) /\ vPh' = "done" /\ vRes' = "error"
+StartKeyAgain(a) == Line(a, "loop", "StartKey", "StartKeyAgain") /\ UNCHANGED <<vSt, vPh, vRes>>
+StopKey(a) == Line(a, "loop", "StopKey", "StopKey") /\ vSt' = EffectF(vSt, LR(a).info) /\ vPh' = "done" /\ vRes' = "accepted"
+NoOpLine(a) == Line(a, "loop", "NoOp", "NoOpLine") /\ UNCHANGED <<vSt, vPh, vRes>>          \* unknown key, comment, empty line, ignored key
+IgnoreBadValue(a) == Line(a, "loop", "IgnoreBadValue", "IgnoreBadValue") /\ UNCHANGED <<vSt, vPh, vRes>>   \* no ':=', no value, value of the wrong type
+AssignScalar(a) == Line(a, "loop", "AssignScalar", "AssignScalar") /\ vSt' = EffectF(vSt, LR(a).info) /\ UNCHANGED <<vPh, vRes>>
+AssignIndexed(a) == Line(a, "loop", "AssignIndexed", "AssignIndexed") /\ vSt' = EffectF(vSt, LR(a).info) /\ UNCHANGED <<vPh, vRes>>
+IndexError(a) == Line(a, "loop", "IndexError", "IndexError") /\ vSt' = EffectF(vSt, LR(a).info) /\ vPh' = "done" /\ vRes' = "error"
 \* end of input.  A pending continued line is processed as it stands (ContinuationAtEof).
 Pend == PendTab[vPend]
 PendingKind == IF vPend # 0 /\ Pend.meaningful /\ Pend.text # "" THEN KindF(vSt, Pend.info) ELSE "none"
 EofBeforeStart == /\ vPh = "first" /\ PendingKind # "StartKey"
                   /\ vSt' = IF PendingKind = "none" THEN vSt ELSE EffectF(vSt, Pend.info)
                   /\ vPh' = "done" /\ vRes' = IF vSt'.err # NoErr THEN "error" ELSE "rejected"
-                  /\ vPend' = 0 /\ vLast' = [kind |-> "EofBeforeStart"] /\ UNCHANGED vHist
+                  /\ vPend' = 0 /\ vLast' = [act |-> "EofBeforeStart", kind |-> "EofBeforeStart"] /\ UNCHANGED vHist
 \* EofAccept: "early EOF" is only a warning, the stop key is not required
 EofAccept == /\ vPh = "loop" \/ (vPh = "first" /\ PendingKind = "StartKey")
              /\ vSt' = IF PendingKind = "none" THEN [vSt EXCEPT !.status = "end"]
                       ELSE LET s2 == EffectF(vSt, Pend.info) IN IF s2.err # NoErr THEN s2 ELSE [s2 EXCEPT !.status = "end"]
              /\ vPh' = "done" /\ vRes' = IF vSt'.err # NoErr THEN "error" ELSE "accepted"
-             /\ vPend' = 0 /\ vLast' = [kind |-> "EofAccept"] /\ UNCHANGED vHist
+             /\ vPend' = 0 /\ vLast' = [act |-> "EofAccept", kind |-> "EofAccept"] /\ UNCHANGED vHist
 
 Next == \/ \E a \in AlphaIds : \/ ContinueLine(a) \/ SkipBlankLine(a) \/ StartKey(a) \/ FirstLineBeforeStart(a) \/ StartKeyAgain(a)
                                \/ StopKey(a) \/ NoOpLine(a) \/ IgnoreBadValue(a) \/ AssignScalar(a) \/ AssignIndexed(a) \/ IndexError(a)
